@@ -289,10 +289,11 @@ def run_case(case, rec, ssj=None, data=None):
         call = {'api': case['api'], 'ltable': L, 'rtable': R, 'l_key': 'id', 'r_key': 'id', 'l_attr': 's',
                 'r_attr': 's', 'tok': {'kind': 'ws', 'return_set': True}, 'allow_missing': False,
                 'n_jobs': case.get('n_jobs', 1), 'warm': None}
-        nt = check_laws(ssj, rec, dict(case, t_attained=1.0), call, 0.4, 1.0)
+        # (laxer threshold 0.15: one common token is enough to be a candidate there)
+        nt = check_laws(ssj, rec, dict(case, t_attained=1.0), call, 0.15, 1.0)
         rec.count('nontrivial_pairs', nt)
         rec.count('modular_rank_cases')
-        return {'nontrivial': nt, 'call': call, 't': (0.4, 1.0)}
+        return {'nontrivial': nt, 'call': call, 't': (0.15, 1.0)}
     if case['gen'] == 'ubiq':
         L, R = gen.ubiquitous_tables(case['n'], random.Random(case['seed']))
         call = {'api': case['api'], 'ltable': L, 'rtable': R, 'l_key': 'id', 'r_key': 'id', 'l_attr': 's',
